@@ -4,7 +4,7 @@ properties listed below) against a scratch worktree with the patch applied; reco
 import json, os, re, subprocess, sys
 V = "/verif"
 RELATED = {"C01": ["C09"], "C02": ["C07"], "C03": ["C06", "C09"], "C04": ["C08"], "C05": ["C08"], "C06": ["C03", "C09"], "C07": ["C09"], "C08": ["C05"],
-           "C09": ["C10", "C06"], "C10": ["C09"], "C11": ["C08"], "C12": [], "C13": ["C16"], "C14": ["C17"], "C15": ["C16"], "C16": [], "C17": ["C08", "C16"], "C18": []}
+           "C09": ["C10", "C06"], "C10": ["C09"], "C11": ["C08"], "C12": [], "C13": ["C16"], "C14": ["C17"], "C15": ["C16", "C10"], "C16": [], "C17": ["C08", "C16"], "C18": []}
 only = sys.argv[1:]
 for d in sorted(os.listdir(f"{V}/seeded")):
     if only and d not in only:
